@@ -94,3 +94,7 @@ def run(ctx):
                    rule='every reader of external bytes driven on the ASan/UBSan build: exhaustive short strings over each format\'s token alphabet where stated, token-soup and random bytes otherwise; '
                         'a crash/abort/sanitizer report/timeout is a violation with the offending input as replay; non-trivial = all but the canonicaliser inputs',
                    samples=[{'component': c, 'inputs': n} for c, n in sorted(stats.items())], distribution=stats)
+    # CLParser (/showIncludes) and the MAKEFLAGS parser are inside the Coq model now (coq/Misc/, Properties_C13readers.v):
+    # extracted model vs the real code on the same inputs, every difference is reported with the input
+    import miscmodel
+    miscmodel.hook(ctx)
